@@ -43,13 +43,18 @@ def suites():
         # abstract columns 0,1,2 at real columns 0,63,64 of a 70-wide array: straddles the exporter's 64-voxel chunks
         "x_seg13e": (variant("seg13", "x_seg13e", embed=[70, [0, 63, 64]]), 90, 1500),
         "x_seg13n": (variant("seg13n", "x_seg13n"), 40, 600),
+        # embedded along EVERY axis of a (66, 66, 70) array: frames 0,1,2 at real frames 0,63,65, the row at real row 0,
+        # columns at 0,63,64 - the first 64x64x64 chunk of the exporter is a full chunk and holds several masks,
+        # and one frame lies beyond the 64th
+        "x_seg13f": (variant("seg13", "x_seg13f", embed={"shape": [66, 66, 70], "tmap": [0, 63, 65],
+                                                         "amap": [[0], [0, 63, 64]]}), 40, 600),
         "x_seg3d": (variant("seg3d", "x_seg3d"), 40, 600),
     }
 
 
 PLAN = {"C14": ["x_struct4", "x_struct0", "x_structc", "x_peraxis", "x_seg13", "x_seg13n", "x_seg3d"],
-        "C15": ["x_struct4", "x_struct0", "x_seg13e", "x_seg3d"],
-        "C16": ["x_struct4", "x_struct0", "x_peraxis", "x_structz", "x_seg13e", "x_seg13n", "x_seg3d"]}
+        "C15": ["x_struct4", "x_struct0", "x_seg13e", "x_seg13f", "x_seg3d"],
+        "C16": ["x_struct4", "x_struct0", "x_peraxis", "x_structz", "x_seg13e", "x_seg13f", "x_seg13n", "x_seg3d"]}
 
 RULE = {"C14": "one record per (catalogue state, format in csv/geff/internal); non-trivial = state with at least one edge",
         "C15": "one record per (catalogue state, EVERY subset of its nodes, format in csv/geff); non-trivial = selection whose ancestor closure adds nodes",
